@@ -1,5 +1,6 @@
 """C15 - approximate extrema always enclose the true extrema; anneal_temperature_range is ordered and non-negative."""
 import copy
+from fractions import Fraction
 import json
 import warnings
 
@@ -15,9 +16,14 @@ def gen_case(rng):
         spin = rng.random() < 0.5
         kind = rng.choice(pure.SPIN_KINDS if spin else pure.BOOL_KINDS)
         labels, terms, matrix = pure.gen_model(rng, kind)
-        p0 = rng.choice([0.0, 0.01, 0.3, 0.5, 0.9, 0.999])
-        pf = rng.choice([p for p in [0.0, 0.001, 0.01, 0.3, 0.5, 0.9] if p <= p0])
+        p0 = rng.choice([0.0, 0.01, 0.3, 0.5, 0.9, 0.999, 1 - 1e-7, 1 - 1e-9, 1 - 1e-12])
+        pf = rng.choice([p for p in [0.0, 1e-12, 0.001, 0.01, 0.3, 0.5, 0.9, 0.999, 1 - 1e-7, 1 - 1e-9, 1 - 1e-12] if p <= p0])
         return {"op": "temprange", "spin": spin, "kind": kind, "labels": labels, "terms": terms, "p0": p0, "pf": pf}
+    if rng.random() < 0.12:
+        # the bounds helper of the constraint methods: missing bounds are computed, given ones are kept
+        labels, terms, matrix = pure.gen_model(rng, "PUBO")
+        return {"op": "bounds", "fn": "_get_bounds", "spin": False, "kind": "PUBO", "labels": labels, "terms": terms,
+                "bmode": rng.choice(["none", "nonenone", "lo", "hi"]), "scale": rng.choice([0, 0, -40, -20, 20])}
     fn = rng.choice(sorted(FNS))
     spin, quad = FNS[fn]
     kinds = pure.SPIN_KINDS if spin else pure.BOOL_KINDS
@@ -25,7 +31,9 @@ def gen_case(rng):
         kinds = [k for k in kinds if k in pure.QUADK or k == "dict"]
     kind = rng.choice(kinds)
     labels, terms, matrix = pure.gen_model(rng, kind, quad=quad)
-    return {"op": "extrema", "fn": fn, "spin": spin, "kind": kind, "labels": labels, "terms": terms}
+    # real coefficients: the whole model scaled by a power of two (exact in floating point), far below / above 1
+    return {"op": "extrema", "fn": fn, "spin": spin, "kind": kind, "labels": labels, "terms": terms,
+            "scale": rng.choice([0, 0, 0, 0, -40, -20, 20])}
 
 
 def exhaustive_cases(polys, only_general_dict=False):
@@ -49,19 +57,29 @@ def run_case(case, cid):
     cls = pure.classes()[case["kind"]]
     matrix = case["kind"].endswith("Matrix")
     nm = pure.Namer(case["labels"], matrix)
-    model = cls(case["terms"])
+    sc = Fraction(2) ** case.get("scale", 0)
+    model = cls({k: (v * float(sc) if sc != 1 else v) for k, v in case["terms"].items()})
     snap = copy.deepcopy(model)
     rec = pure.blank(cid, case["op"])
     rec["spin"] = case["spin"]
     try:
-        terms = pure.items_of(snap)
+        terms = [(k, common.frac(v) / sc) for k, v in pure.items_of(snap)]       # what TLC sees is the unscaled model
         d0 = common.common_den([common.frac(v) for _, v in terms])
         rec["den"] = d0
         rec["model"] = pure.enc_terms(terms, nm, d0)          # recorded before the call, so it is there if the call raises
         with warnings.catch_warnings():
             warnings.simplefilter("ignore")
-            if case["op"] == "extrema":
-                lo, hi = getattr(utils, case["fn"])(model)
+            if case["op"] in ("extrema", "bounds"):
+                if case["op"] == "bounds":
+                    from qubovert import _pcbo
+                    cs = [common.frac(v) for k, v in pure.items_of(snap)]
+                    up = float(sum(c for c in cs if c > 0) + abs(sum(cs)) + sc)      # a valid (loose) upper bound, at the model's scale
+                    dn = float(sum(c for c in cs if c < 0) - abs(sum(cs)) - sc)
+                    barg = {"none": None, "nonenone": (None, None), "lo": (dn, None), "hi": (None, up)}[case["bmode"]]
+                    lo, hi = _pcbo._get_bounds(model, barg)
+                else:
+                    lo, hi = getattr(utils, case["fn"])(model)
+                lo, hi = common.frac(lo) / sc, common.frac(hi) / sc
                 den = common.common_den([common.frac(v) for _, v in terms] + [common.frac(lo), common.frac(hi)])
                 rec["lo"], rec["hi"] = common.to_int(common.frac(lo), den), common.to_int(common.frac(hi), den)
                 rec["K"] = sorted({nm(x) for k, _ in terms for x in k}, key=str)
